@@ -45,6 +45,7 @@ type LoopSpec struct {
 }
 
 type FuncContract struct {
+	Pkg        string
 	Name       string
 	File       string
 	Line       int
@@ -77,6 +78,7 @@ type FieldDecl struct {
 }
 
 type PredDecl struct {
+	Pkg    string
 	Name   string
 	Params []SBind
 	Src    string
@@ -84,6 +86,7 @@ type PredDecl struct {
 }
 
 type ContractSet struct {
+	PkgPath string
 	LockInvs map[string][]*Clause // "Type.mutex" -> invariants over self
 	Preds  map[string]*PredDecl
 	Funcs  map[string]*FuncContract
@@ -201,7 +204,7 @@ func LoadContractFile(path string, cs *ContractSet) error {
 			if i < 0 || j < 0 {
 				return fmt.Errorf("%s:%d: bad pred", path, l.no)
 			}
-			pd := &PredDecl{Name: strings.TrimSpace(rest[:i]), Src: strings.TrimSpace(rest[j+3:])}
+			pd := &PredDecl{Pkg: cs.PkgPath, Name: strings.TrimSpace(rest[:i]), Src: strings.TrimSpace(rest[j+3:])}
 			for _, ps := range splitTop(rest[i+1:j], ',') {
 				ps = strings.TrimSpace(ps)
 				if ps == "" {
@@ -272,7 +275,7 @@ func LoadContractFile(path string, cs *ContractSet) error {
 				curLemma.Vars = append(curLemma.Vars, SBind{ps[:k], strings.TrimSpace(ps[k+1:])})
 			}
 		case "func":
-			cur = &FuncContract{Name: rest, File: path, Line: l.no, Mode: "seq", Loops: map[string]*LoopSpec{}}
+			cur = &FuncContract{Pkg: cs.PkgPath, Name: rest, File: path, Line: l.no, Mode: "seq", Loops: map[string]*LoopSpec{}}
 			if _, dup := cs.Funcs[rest]; dup {
 				return fmt.Errorf("%s:%d: duplicate contract for %s", path, l.no, rest)
 			}
